@@ -18,6 +18,26 @@ Fixpoint glob (p s : str) : bool :=
            end
   end.
 
+(* the same relation evaluated on sets of remaining texts (polynomial; ProofsGlob.glob_run_eq: equal to [glob]);
+   this is what the run-time oracle evaluates *)
+Fixpoint suffixes (s : str) : list str := s :: match s with [] => [] | _ :: r => suffixes r end.
+Fixpoint dedup_str (l : list str) : list str :=
+  match l with
+  | [] => []
+  | x :: r => if existsb (str_eqb x) r then dedup_str r else x :: dedup_str r
+  end.
+Definition glob_step (c : N) (s : str) : list str :=
+  match s with
+  | [] => []
+  | d :: s' => if (c =? 63) || (c =? d) then [s'] else []
+  end.
+Fixpoint gsets (p : str) (ss : list str) : list str :=
+  match p with
+  | [] => ss
+  | c :: p' => gsets p' (if c =? 42 then dedup_str (flat_map suffixes ss) else flat_map (glob_step c) ss)
+  end.
+Definition glob_run (p s : str) : bool := existsb nil_str (gsets p [s]).
+
 (* the characters a pattern / a matched text of the property's domain is made of *)
 Definition pat_char_ok (c : N) : bool := negb (js_meta c) || (c =? 63).      (* literals, '.', '*', '?' *)
 Definition text_char_ok (c : N) : bool := negb (c =? 10) && negb (c =? 13).   (* no line terminators *)
@@ -126,7 +146,7 @@ Definition spec_call (e : env) (h : helper) (args : list jsval) : outcome :=
   | HdnsDomainLevels, [JStr a] => Val (JNum (count_byte 46 a))
   | HisPlainHostName, [JStr a] => Val (JBool (negb (has_byte 46 a) && negb (has_byte 58 a)))
   | HlocalHostOrDomainIs, [JStr a; JStr c] => Val (JBool (str_eqb a c || has_prefix c (a ++ [46])))
-  | HshExpMatch, [JStr a; JStr c] => if glob_domain a c then Val (JBool (glob c a)) else OutsideModel
+  | HshExpMatch, [JStr a; JStr c] => if glob_domain a c then Val (JBool (glob_run c a)) else OutsideModel
   | HisInNet, [JStr a; JStr c; JStr d] => Val (JBool (spec_isInNet e a c d))
   | HisResolvable, [JStr a] => Val (JBool (match spec_resolve4 e a with Some _ => true | None => false end))
   | HdnsResolve, [JStr a] => Val (match spec_resolve4 e a with Some ip => JStr ip | None => JNull end)
